@@ -21,13 +21,16 @@ NONE == "None"
 NE == [none |-> TRUE]
 IsNone(e) == DOMAIN e = {"none"}
 NoArgs == [some |-> FALSE, list |-> <<>>]
+(* a literal value travels as characters (a TLA+ string cannot be taken apart, and Conforms.tla has to read numbers, units and dates out of it) *)
+NoVal == [some |-> FALSE, c |-> <<>>]
+Val(c) == [some |-> TRUE, c |-> c]
 Args(l) == [some |-> TRUE, list |-> l]
-EField(f, minus) == Expr(NE, NONE, NONE, NONE, NE, minus, f, NONE, NoArgs, NONE)
-EValue(v, minus) == Expr(NE, NONE, NONE, NONE, NE, minus, NONE, NONE, NoArgs, v)
-EOp(l, op, r) == Expr(l, NONE, NONE, op, r, FALSE, NONE, NONE, NoArgs, NONE)
-ELogical(l, lop, r) == Expr(l, NONE, lop, NONE, r, FALSE, NONE, NONE, NoArgs, NONE)
-EArith(l, aop, r) == Expr(l, aop, NONE, NONE, r, FALSE, NONE, NONE, NoArgs, NONE)
-EFunction(fn) == Expr(NE, NONE, NONE, NONE, NE, FALSE, NONE, fn, Args(<<>>), NONE)
+EField(f, minus) == Expr(NE, NONE, NONE, NONE, NE, minus, f, NONE, NoArgs, NoVal)
+EValue(v, minus) == Expr(NE, NONE, NONE, NONE, NE, minus, NONE, NONE, NoArgs, Val(v))
+EOp(l, op, r) == Expr(l, NONE, NONE, op, r, FALSE, NONE, NONE, NoArgs, NoVal)
+ELogical(l, lop, r) == Expr(l, NONE, lop, NONE, r, FALSE, NONE, NONE, NoArgs, NoVal)
+EArith(l, aop, r) == Expr(l, aop, NONE, NONE, r, FALSE, NONE, NONE, NoArgs, NoVal)
+EFunction(fn) == Expr(NE, NONE, NONE, NONE, NE, FALSE, NONE, fn, Args(<<>>), NoVal)
 Ok(e, i) == [ok |-> TRUE, e |-> e, i |-> i]
 Err(i) == [ok |-> FALSE, e |-> NE, i |-> i]
 
@@ -118,9 +121,9 @@ PCond(toks, i0) ==
           IN IF ~res.ok THEN res
              ELSE LET e == res.e
                       short == IF ~IsNone(e) /\ e.field # NONE /\ IsNone(e.left) /\ IsNone(e.right) /\ e.field \in BooleanFields
-                               THEN EOp(EField(e.field, FALSE), "Eq", EValue("true", FALSE))
+                               THEN EOp(EField(e.field, FALSE), "Eq", EValue(<<"t","r","u","e">>, FALSE))
                                ELSE IF ~IsNone(e) /\ e.field = NONE /\ e.function # NONE /\ IsNone(e.right) /\ e.args.list = <<>> /\ e.function \in BooleanFunctions
-                               THEN EOp([EFunction(e.function) EXCEPT !.left = e.left], "Eq", EValue("true", FALSE))
+                               THEN EOp([EFunction(e.function) EXCEPT !.left = e.left], "Eq", EValue(<<"t","r","u","e">>, FALSE))
                                ELSE e
                   IN Ok(IF pn.neg /\ ~IsNone(short) THEN NegateExpr(short) ELSE short, res.i)
 
@@ -155,12 +158,12 @@ PFuncScalar(toks, i0) ==
       i == IF minus \/ plus THEN i0 + 1 ELSE i0          \* any other arithmetic token is looked at again and fails below
   IN IF minus /\ K(toks, i) \in {"open", "curlyopen"}
      THEN LET r == PParen(toks, i) IN IF ~r.ok \/ IsNone(r.e) THEN r ELSE Ok([r.e EXCEPT !.minus = ~@], r.i)
-     ELSE IF K(toks, i) = "string" THEN Ok(EValue(Str(S(toks, i)), minus), i + 1)
+     ELSE IF K(toks, i) = "string" THEN Ok(EValue(S(toks, i), minus), i + 1)
      ELSE IF K(toks, i) = "raw"
      THEN IF FieldOf(S(toks, i)) # NONE THEN Ok(EField(FieldOf(S(toks, i)), minus), i + 1)
           ELSE IF FunctionOf(S(toks, i)) # NONE
           THEN LET r == PFunction(toks, i + 1, FunctionOf(S(toks, i))) IN IF ~r.ok THEN r ELSE Ok([r.e EXCEPT !.minus = minus], r.i)
-          ELSE Ok(EValue((IF plus THEN "+" ELSE "") \o Str(S(toks, i)), minus), i + 1)
+          ELSE Ok(EValue((IF plus THEN <<"+">> ELSE <<>>) \o S(toks, i), minus), i + 1)
      ELSE Err(i + 1)
 
 PFunction(toks, i, fn) ==
